@@ -624,6 +624,8 @@ package agent
 //@ at[C04] call crypto.ComputeECDH assert c04relay == nil || peerID != c04relay.DownstreamPeer
 //@ note C04: the relay branch of this handler returns before any key material is touched
 //@ at[C04] call SendToPeer assert !c04data($2.Type)
+//@ at[C02,C03] call crypto.DeriveSessionKey assert forall j in 0..32: dest.EphemeralPrivKey[j] == 0
+//@ note C02/C03: the private half of the pair is wiped in the association before the session key exists, so a stored pair yields a session key (a key with its send counter at zero) at most once
 
 //@ func deriveICMPSessionKey
 //@ prop C03
@@ -640,6 +642,8 @@ package agent
 //@ ensures err != nil ==> result0 == nil
 //@ ensures remotePubKey == zeros() ==> result0 == nil && err == nil
 //@ note the last clause states what the body does, not what C03 wants: a zero remote key yields (nil, nil), "encryption disabled", instead of an error. The demand (no successful OPEN without a key) is placed on the caller, handleICMPOpenAck, where it fails
+//@ at[C02,C03] call crypto.DeriveSessionKey assert forall j in 0..32: (*ephPrivKey)[j] == 0
+//@ note C02/C03: the caller's private key is wiped before the session key exists (one session key per stored pair)
 
 //@ func (*Agent).handleICMPOpenAck
 //@ prop C03
